@@ -274,6 +274,18 @@ pub fn eval_comptime_blocks<'a>(
             continue;
         }
 
+        if matches!(return_ty.absolute_ty(), Ty::String) {
+            // a `str` is the address of NUL-terminated bytes in memory that is freed below.
+            // keep the bytes: `Expr::Comptime` turns the `Data` of a pointer-typed block into
+            // the address of a new data object
+            let comptime =
+                unsafe { mem::transmute::<*const u8, fn() -> *const std::ffi::c_char>(code_ptr) };
+            let text = unsafe { std::ffi::CStr::from_ptr(comptime()) };
+
+            results.insert(ctc, ComptimeResult::Data(text.to_bytes_with_nul().into()));
+            continue;
+        }
+
         match return_ty.get_final_ty() {
             FinalTy::Number(number_ty) => {
                 let result = match number_ty.ty {
